@@ -162,3 +162,23 @@ def hopping_positions(r, T, na, site_frac, p_move=0.15, sigma=0.01):
                     cur[a] = int(free[int(r.integers(0, len(free)))])
             pos[t, a] = np.array(site_frac[cur[a]]) + r.normal(0, sigma, 3)
     return np.mod(pos, 1)
+
+
+def pkdtree_disagrees(lattice, site_frac, pos_frac, radii):
+    """Attribution test for known finding D19: does MDAnalysis' PeriodicKDTree (float32, as GEMDAT drives it) return a
+    different neighbour set than MDAnalysis' own brute-force search for this configuration?"""
+    from MDAnalysis.lib.distances import capped_distance
+    from MDAnalysis.lib.mdamath import triclinic_vectors
+    from MDAnalysis.lib.pkdtree import PeriodicKDTree
+    box = np.array(lattice.parameters, dtype=np.float32)
+    bv = triclinic_vectors(box)
+    ac = np.dot(np.asarray(pos_frac, dtype=float).reshape(-1, 3), bv)
+    sc = np.dot(np.asarray(site_frac, dtype=float).reshape(-1, 3), bv)
+    for r in sorted(set(float(x) for x in radii)):
+        tree = PeriodicKDTree(box=box)
+        tree.set_coords(ac, cutoff=max(float(x) for x in radii))
+        got = set(map(tuple, tree.search_tree(sc, r)))
+        ref = set(map(tuple, capped_distance(sc.astype(np.float32), ac.astype(np.float32), r, box=box, method='bruteforce', return_distances=False)))
+        if got != ref:
+            return True
+    return False
